@@ -358,7 +358,7 @@ def tour(nodes, edges, inits, max_paths=None):
 _VERDICT = re.compile(r'^"VERDICT <<(.*)>>"\s*$', re.M)
 
 
-def validate(module, cfg, traces, wd=None, timeout=900, extra_env=None, shard=4000, workers=1):
+def validate(module, cfg, traces, wd=None, timeout=900, extra_env=None, shard=4000, workers=1, quiet=False):
     """validate a list of traces (each a list of event dicts, or any JSON value the trace spec understands)
     with the total monitor spec/<module>.tla.  Returns (verdicts list aligned with traces, stats).
     A verdict is dict(tid, at, clause, detail)."""
@@ -403,6 +403,13 @@ def validate(module, cfg, traces, wd=None, timeout=900, extra_env=None, shard=40
                     verdicts[tid] = rec
             elif verdicts[tid] is None:
                 verdicts[tid] = rec
+        if quiet:
+            # quiet monitors print failures only: require a completed run that visited every trace
+            if "Model checking completed. No error has been found" not in out or r.get("distinct", 0) < len(part):
+                raise TlcError("quiet trace validation incomplete (%s/%s):\n%s" % (module, cfg, out[-2000:]))
+            for i in range(len(part)):
+                if verdicts[k + i] is None:
+                    verdicts[k + i] = dict(tid=k + i, at=0, clause="ok", detail=None)
         os.remove(path)
     missing = [i for i, v in enumerate(verdicts) if v is None]
     if missing:
